@@ -126,15 +126,16 @@ func (x *XRefParser) FindXRef() (int64, error) {
 		return 0, fmt.Errorf("startxref not found in PDF")
 	}
 
-	// Parse the offset after startxref
+	// Parse the offset after startxref. The keyword and the offset are on
+	// separate lines, ended by any PDF end-of-line marker (CR, LF or CRLF).
 	afterStartXRef := content[idx+len("startxref"):]
-	lines := strings.Split(afterStartXRef, "\n")
-	if len(lines) < 2 {
+	lines := strings.FieldsFunc(afterStartXRef, func(r rune) bool { return r == '\r' || r == '\n' })
+	if len(lines) < 1 {
 		return 0, fmt.Errorf("invalid startxref format")
 	}
 
 	// The offset should be on the next line
-	offsetStr := strings.TrimSpace(lines[1])
+	offsetStr := strings.TrimSpace(lines[0])
 	offset, err := strconv.ParseInt(offsetStr, 10, 64)
 	if err != nil {
 		return 0, fmt.Errorf("invalid xref offset: %w", err)
@@ -178,6 +179,7 @@ func (x *XRefParser) ParseXRef(offset int64) (*XRefTable, error) {
 // streams start with an object definition like "5 0 obj".
 func (x *XRefParser) isXRefStream() (bool, error) {
 	scanner := bufio.NewScanner(x.reader)
+	scanner.Split(scanPDFLines)
 	if !scanner.Scan() {
 		return false, fmt.Errorf("failed to read first line")
 	}
@@ -203,10 +205,40 @@ func (x *XRefParser) isXRefStream() (bool, error) {
 	return false, fmt.Errorf("unrecognized xref format: %s", line)
 }
 
+// scanPDFLines is a bufio.SplitFunc that ends a line at any of the three PDF
+// end-of-line markers: LF, CR LF, or a CR alone (ISO 32000-1 7.2.3).
+func scanPDFLines(data []byte, atEOF bool) (advance int, token []byte, err error) {
+	if atEOF && len(data) == 0 {
+		return 0, nil, nil
+	}
+	for i, b := range data {
+		if b == '\n' {
+			return i + 1, data[:i], nil
+		}
+		if b == '\r' {
+			if i+1 < len(data) {
+				if data[i+1] == '\n' {
+					return i + 2, data[:i], nil
+				}
+				return i + 1, data[:i], nil
+			}
+			if atEOF {
+				return i + 1, data[:i], nil
+			}
+			return 0, nil, nil // need one more byte to tell CR from CR LF
+		}
+	}
+	if atEOF {
+		return len(data), data, nil
+	}
+	return 0, nil, nil
+}
+
 // parseTraditionalXRef parses a traditional xref table (PDF 1.0-1.4).
 // The format is: "xref\n<subsections>\ntrailer\n<dict>\nstartxref\n<offset>\n%%EOF"
 func (x *XRefParser) parseTraditionalXRef() (*XRefTable, error) {
 	scanner := bufio.NewScanner(x.reader)
+	scanner.Split(scanPDFLines)
 
 	// Read "xref" keyword
 	if !scanner.Scan() {
